@@ -3,36 +3,74 @@
 
   For EVERY well-formed architecture `a`, EVERY graph `g` representing it, EVERY layered architecture `larch` whose
   layers are name lists or regex layers (`ls` = the layers with every regex resolved to the modules it matches),
-  and EVERY layer rule `r` in the oracle's domain (`layerDomain`: non-empty layers listing pairwise unrelated existing
-  modules, subject and objects distinct defined layers; all 12 shapes and the two `any layer` aliases; any number of
-  object layers; any number of layers of either kind that the rule does not mention):
+  and EVERY layer rule `r` in the oracle's domain (`layerDomain'`, relaxed after audit finding F6: non-empty layers
+  listing existing modules, modules of DIFFERENT layers pairwise unrelated — inside one layer anything goes: a regex layer
+  may match a package and its sub modules, a name layer may list a module, one of its sub modules, or the same module
+  twice —, distinct layer names, subject and objects defined layers, objects different from the subject but possibly
+  repeated; all 12 shapes and the two `any layer` aliases; any number of object layers; any number of layers of either
+  kind that the rule does not mention):
   the model of `LayerRule(...).assert_applies` returns pass exactly when `layerVerdict a ls r` holds and fail
   (AssertionError) exactly when it does not; in particular it never raises `LayerMismatch` or any other error.
 
+  Layers the rule does not mention (`layer_verdict_kept`, `unmentioned_layers_irrelevant'`): the domain is needed only of
+  the layers the rule works with (`ruleLayers`: regex layers whose pattern the rule does not convert list nothing for
+  this rule, whatever they match). Of the layers the rule does not mention nothing is required about existence, but
+  listed modules of an unmentioned NAME layer must still be unrelated to the listed modules of every other layer:
+  otherwise looking up a common descendant raises `LayerMismatch` (`unmentioned_related_layer_mismatch`).
+
   Outside that domain, since the repair of `LayerRuleMatcher._update_layer_mapping`: if the layer mapping the rule uses
   (regexes of the rule resolved) assigns one module identifier to two layers with different names, the rule raises
-  `LayerMismatch` and never returns a verdict (`overlapping_layers_*`); on `layerDomain` that check passes
+  `LayerMismatch` and never returns a verdict (`overlapping_layers_*`); on `layerDomain'` that check passes
   (`layer_map_consistent`).
 -/
 import Bridge.Abs
 import Bridge.LayerAbs
+import Bridge.LayerKept
 import PtaProofs.Lemmas.LayerRegex
 namespace Pta.C05
 open Pta PtaSpec
 
+/-- the relaxed domain contains the old one (all listed modules pairwise unrelated, objects listed once) -/
+theorem layerDomain_imp (a : Arch) (ls : Layers) (r : LRuleSpec) (h : layerDomain a ls r = true) :
+    layerDomain' a ls r = true :=
+  Pta.layerDomain'_of_layerDomain a ls r h
+
+/-- … and is contained in the domain of `layer_verdict_kept` -/
+theorem layerDomain'_imp (mt : Str → Str → Bool) (nodes : List Str) (a : Arch) (hwf : a.wf = true) (ls : Layers)
+    (r : LRuleSpec) (h : layerDomain' a ls r = true) (larch : LArch) (hres : resolves mt nodes larch ls = true) :
+    layerDomainK a ls r = true ∧
+    (∀ l' ∈ ruleLayers larch ls r, ∃ l ∈ ls, l.1 = l'.1 ∧ (l'.2 = l.2 ∨ l'.2 = [])) ∧
+    (ruleLayers larch ls r).get r.subject = ls.get r.subject ∧
+    (r.anything = false → ∀ on ∈ r.objects, (ruleLayers larch ls r).get on = ls.get on) :=
+  ⟨Pta.layerDomainK_of_layerDomain' a hwf ls r h, Pta.kept_sub _ larch ls,
+   Pta.kept_get mt nodes _ larch ls hres r.subject (Pta.ruleConv_subj larch r),
+   fun hany on hon => Pta.kept_get mt nodes _ larch ls hres on (Pta.ruleConv_obj larch r hany on hon)⟩
+
 /-- C05, main statement: name layers and regex layers, the LayerRule object after the complete builder chain -/
 theorem layer_verdict (mt : Str → Str → Bool) (a : Arch) (g : PGraph Str) (hg : GraphOf a g)
-    (hwf : a.wf = true) (ls : Layers) (r : LRuleSpec) (hdom : layerDomain a ls r = true)
+    (hwf : a.wf = true) (ls : Layers) (r : LRuleSpec) (hdom : layerDomain' a ls r = true)
     (hany : r.anything = true → r.verb = .shouldNot)
     (larch : LArch) (hres : resolves mt g.nodes larch ls = true) :
     (assertAppliesLayer mt (compileLayerRule larch r) g).cls = VClass.ofBool (layerVerdict a ls r) :=
   Pta.layer_verdict_lemma mt a g hg hwf ls r hdom hany larch hres
 
+/-- C05 with the domain required only of the layers the rule works with (`ruleLayers larch ls r`: the resolved layers,
+    except that a regex layer whose pattern is not a pattern of a layer the rule mentions lists nothing). Of layers the
+    rule does not mention `layerDomainK` requires no existence and no non-emptiness, only well-formed names, distinct
+    layer names and unrelatedness to the modules of every OTHER layer -/
+theorem layer_verdict_kept (mt : Str → Str → Bool) (a : Arch) (g : PGraph Str) (hg : GraphOf a g)
+    (hwf : a.wf = true) (ls : Layers) (r : LRuleSpec)
+    (hany : r.anything = true → r.verb = .shouldNot)
+    (larch : LArch) (hres : resolves mt g.nodes larch ls = true)
+    (hdom : layerDomainK a (ruleLayers larch ls r) r = true) :
+    (assertAppliesLayer mt (compileLayerRule larch r) g).cls = VClass.ofBool (layerVerdict a ls r) :=
+  Pta.layer_verdict_kept_lemma mt a g hg hwf ls r hany larch hres hdom
+
 /-- C05 through the fluent API: `compileLayerRule larch r` is the state after the complete call chain
     `based_on(larch).layers_that().are_named(subject).<verb>().<access…>().are_named(objects)`, so the statement holds
     for the run of the chain followed by `assert_applies` -/
 theorem layer_verdict_chain (mt : Str → Str → Bool) (a : Arch) (g : PGraph Str) (hg : GraphOf a g)
-    (hwf : a.wf = true) (ls : Layers) (r : LRuleSpec) (hdom : layerDomain a ls r = true)
+    (hwf : a.wf = true) (ls : Layers) (r : LRuleSpec) (hdom : layerDomain' a ls r = true)
     (hany : r.anything = true → r.verb = .shouldNot)
     (larch : LArch) (hres : resolves mt g.nodes larch ls = true) (isList : Bool) :
     (runLayerRuleOps mt (layerRuleOps larch r isList) g).1.cls = VClass.ofBool (layerVerdict a ls r) :=
@@ -49,7 +87,7 @@ theorem chain_state (mt : Str → Str → Bool) (g : PGraph Str) (larch : LArch)
 /-- C05 for layered architectures whose layers all list modules by name (instance of `layer_verdict`;
     `compileLArch ls` resolves to `ls`, see `resolves_names`) -/
 theorem layer_verdict_names (mt : Str → Str → Bool) (a : Arch) (g : PGraph Str) (hg : GraphOf a g)
-    (hwf : a.wf = true) (ls : Layers) (r : LRuleSpec) (hdom : layerDomain a ls r = true)
+    (hwf : a.wf = true) (ls : Layers) (r : LRuleSpec) (hdom : layerDomain' a ls r = true)
     (hany : r.anything = true → r.verb = .shouldNot) :
     (assertAppliesLayer mt (compileLayerRule (compileLArch ls) r) g).cls = VClass.ofBool (layerVerdict a ls r) :=
   Pta.layer_verdict_names_lemma mt a g hg hwf ls r hdom hany
@@ -60,39 +98,77 @@ theorem resolves_names (mt : Str → Str → Bool) (nodes : List Str) (ls : Laye
 
 /-- C05 on the graph the constructor builds -/
 theorem layer_verdict_archGraph (mt : Str → Str → Bool) (a : Arch)
-    (hwf : a.wf = true) (ls : Layers) (r : LRuleSpec) (hdom : layerDomain a ls r = true)
+    (hwf : a.wf = true) (ls : Layers) (r : LRuleSpec) (hdom : layerDomain' a ls r = true)
     (hany : r.anything = true → r.verb = .shouldNot)
     (larch : LArch) (hres : resolves mt (archGraph a).nodes larch ls = true) :
     (assertAppliesLayer mt (compileLayerRule larch r) (archGraph a)).cls = VClass.ofBool (layerVerdict a ls r) :=
   Pta.layer_verdict_lemma mt a (archGraph a) (Pta.archGraph_graphOf a hwf) hwf ls r hdom hany larch hres
 
-/-- layers the rule does not mention are irrelevant, however they were defined: two layered architectures that agree on
-    the rule's subject and object layers give the same verdict class -/
+/-- layers the rule does not mention are irrelevant: two layered architectures that agree on the rule's subject and
+    object layers give the same verdict class (both layerings in the relaxed domain) -/
 theorem unmentioned_layers_irrelevant (mt : Str → Str → Bool) (a : Arch) (g : PGraph Str) (hg : GraphOf a g)
     (hwf : a.wf = true) (r : LRuleSpec) (hany : r.anything = true → r.verb = .shouldNot)
-    (ls ls' : Layers) (hdom : layerDomain a ls r = true) (hdom' : layerDomain a ls' r = true)
+    (ls ls' : Layers) (hdom : layerDomain' a ls r = true) (hdom' : layerDomain' a ls' r = true)
     (larch larch' : LArch) (hres : resolves mt g.nodes larch ls = true) (hres' : resolves mt g.nodes larch' ls' = true)
-    (hs : ls.get r.subject = ls'.get r.subject) (ho : ∀ on ∈ r.objects, ls.get on = ls'.get on) :
+    (hs : ls.get r.subject = ls'.get r.subject) (ho : r.anything = false → ∀ on ∈ r.objects, ls.get on = ls'.get on) :
     (assertAppliesLayer mt (compileLayerRule larch r) g).cls = (assertAppliesLayer mt (compileLayerRule larch' r) g).cls := by
   rw [Pta.layer_verdict_lemma mt a g hg hwf ls r hdom hany larch hres,
     Pta.layer_verdict_lemma mt a g hg hwf ls' r hdom' hany larch' hres', Pta.layerVerdict_congr a ls ls' r hs ho]
 
-/-- key lemma `layerOf_correct`: on a mapping listing pairwise unrelated modules, the layer of a module is the unique
-    layer listing one of its ancestors (or the module itself), or none — never `.error layerMismatch` -/
-theorem layerOf_correct (m : Layers) (hunrel : pairwiseUnrelated (m.flatMap (·.2)) = true)
+/-- the same with the domain required only of the layers the rule works with: the layers the rule mentions must be in
+    the domain; unmentioned regex layers may be defined in any way (they list nothing for this rule, unless they repeat
+    a pattern of a mentioned layer); unmentioned name layers may list modules that do not exist, or nothing, but their
+    listed modules must be unrelated to the listed modules of all other layers (see
+    `unmentioned_related_layer_mismatch`: otherwise `LayerMismatch`) -/
+theorem unmentioned_layers_irrelevant' (mt : Str → Str → Bool) (a : Arch) (g : PGraph Str) (hg : GraphOf a g)
+    (hwf : a.wf = true) (r : LRuleSpec) (hany : r.anything = true → r.verb = .shouldNot)
+    (ls ls' : Layers) (larch larch' : LArch)
+    (hres : resolves mt g.nodes larch ls = true) (hres' : resolves mt g.nodes larch' ls' = true)
+    (hdom : layerDomainK a (ruleLayers larch ls r) r = true) (hdom' : layerDomainK a (ruleLayers larch' ls' r) r = true)
+    (hs : ls.get r.subject = ls'.get r.subject) (ho : r.anything = false → ∀ on ∈ r.objects, ls.get on = ls'.get on) :
+    (assertAppliesLayer mt (compileLayerRule larch r) g).cls = (assertAppliesLayer mt (compileLayerRule larch' r) g).cls := by
+  rw [Pta.layer_verdict_kept_lemma mt a g hg hwf ls r hany larch hres hdom,
+    Pta.layer_verdict_kept_lemma mt a g hg hwf ls' r hany larch' hres' hdom', Pta.layerVerdict_congr a ls ls' r hs ho]
+
+/-- in particular the layers the rule does not mention can be dropped: the verdict class is the one of the layered
+    architecture that defines the mentioned layers only, where it is the documented semantics -/
+theorem unmentioned_layers_as_no_layer (mt : Str → Str → Bool) (a : Arch) (g : PGraph Str) (hg : GraphOf a g)
+    (hwf : a.wf = true) (r : LRuleSpec) (hany : r.anything = true → r.verb = .shouldNot)
+    (ls : Layers) (larch : LArch) (hres : resolves mt g.nodes larch ls = true)
+    (hdom : layerDomainK a (ruleLayers larch ls r) r = true) :
+    (assertAppliesLayer mt (compileLayerRule larch r) g).cls =
+      VClass.ofBool (layerVerdict a (ls.filter fun l => l.1 == r.subject || (!r.anything && r.objects.contains l.1)) r) := by
+  rw [Pta.layer_verdict_kept_lemma mt a g hg hwf ls r hany larch hres hdom]
+  congr 1
+  apply Pta.layerVerdict_congr
+  · exact (Pta.get_filter_mentioned ls _ r.subject (fun l h => by simp [h])).symm
+  · intro hanyB on hon
+    exact (Pta.get_filter_mentioned ls _ on (fun l h => by simp [h, hanyB, hon])).symm
+
+/-- key lemma `layerOf_correct`: on a mapping in which listed modules of DIFFERENT layers are unrelated, the layer of a
+    module is the layer whose listed modules contain an ancestor of the module or the module itself — unique by
+    cross-layer unrelatedness, however many listed modules of that layer are such ancestors —, or none; never
+    `.error layerMismatch` -/
+theorem layerOf_correct (m : Layers) (hunrel : crossUnrelated m = true)
     (hm : ∀ l ∈ m, ∀ x ∈ l.2, nameWF x = true) (n : Name) (hn : nameWF n = true) :
     LayerMap.layerOf (m.map fun l => (l.1, l.2.map render)) (render n) = .ok (layerTag m n) ∧
     (∀ l ∈ m, inLayer l.2 n = true → layerTag m n = some l.1) ∧
-    (∀ t, layerTag m n = some t → ∃ l ∈ m, l.1 = t ∧ inLayer l.2 n = true) :=
-  ⟨Pta.layerOf_correct m (Pta.unrelMap_of_pairwise m hunrel) hm n hn,
-   fun _ hl hin => Pta.layerTag_of_mem (Pta.unrelMap_of_pairwise m hunrel) hl hin,
-   fun _ ht => Pta.layerTag_some ht⟩
+    (∀ t, layerTag m n = some t → ∃ l ∈ m, l.1 = t ∧ inLayer l.2 n = true) ∧
+    (∀ l ∈ m, ∀ l' ∈ m, inLayer l.2 n = true → inLayer l'.2 n = true → l.1 = l'.1) :=
+  ⟨Pta.layerOf_correct m (Pta.unrelMap_of_cross m hunrel) hm n hn,
+   fun _ hl hin => Pta.layerTag_of_mem (Pta.unrelMap_of_cross m hunrel) hl hin,
+   fun _ ht => Pta.layerTag_some ht,
+   fun l hl l' hl' hin hin' => by
+     have h1 := Pta.layerTag_of_mem (Pta.unrelMap_of_cross m hunrel) hl hin
+     have h2 := Pta.layerTag_of_mem (Pta.unrelMap_of_cross m hunrel) hl' hin'
+     rw [h1] at h2
+     exact Option.some.inj h2⟩
 
 /-- C03-style soundness of the layer report: every reported import line is an import edge of the graph (an import of
     the architecture), and the two layer tags printed with it are the successful lookups of its ends in the rule's layer
     mapping and differ -/
 theorem layer_report_sound (mt : Str → Str → Bool) (a : Arch) (g : PGraph Str) (hg : GraphOf a g)
-    (hwf : a.wf = true) (ls : Layers) (r : LRuleSpec) (hdom : layerDomain a ls r = true)
+    (hwf : a.wf = true) (ls : Layers) (r : LRuleSpec) (hdom : layerDomain' a ls r = true)
     (hany : r.anything = true → r.verb = .shouldNot)
     (larch : LArch) (hres : resolves mt g.nodes larch ls = true) (items : List LItem)
     (h : assertAppliesLayer mt (compileLayerRule larch r) g = .fail items) :
@@ -103,7 +179,7 @@ theorem layer_report_sound (mt : Str → Str → Bool) (a : Arch) (g : PGraph St
 
 /-- the same on name layers, with the tags in the specification's vocabulary -/
 theorem layer_report_sound_names (mt : Str → Str → Bool) (a : Arch) (g : PGraph Str) (hg : GraphOf a g)
-    (hwf : a.wf = true) (ls : Layers) (r : LRuleSpec) (hdom : layerDomain a ls r = true)
+    (hwf : a.wf = true) (ls : Layers) (r : LRuleSpec) (hdom : layerDomain' a ls r = true)
     (hany : r.anything = true → r.verb = .shouldNot) (items : List LItem)
     (h : assertAppliesLayer mt (compileLayerRule (compileLArch ls) r) g = .fail items) :
     ∀ u v b tu tv, LItem.imp u v b tu tv ∈ items →
@@ -112,14 +188,15 @@ theorem layer_report_sound_names (mt : Str → Str → Bool) (a : Arch) (g : PGr
 
 /-! ### a module assigned to two layers -/
 
-/-- on the domain of `layer_verdict` the check of the repaired `_update_layer_mapping` passes: listed modules are
-    pairwise unrelated, in particular pairwise distinct -/
+/-- on the domain of `layer_verdict` the check of the repaired `_update_layer_mapping` passes: listed modules of
+    different layers are unrelated, in particular distinct (a module listed twice in ONE layer is not an error) -/
 theorem layer_map_consistent (mt : Str → Str → Bool) (a : Arch) (g : PGraph Str) (hg : GraphOf a g)
-    (hwf : a.wf = true) (ls : Layers) (r : LRuleSpec) (hdom : layerDomain a ls r = true)
+    (hwf : a.wf = true) (ls : Layers) (r : LRuleSpec) (hdom : layerDomain' a ls r = true)
     (hany : r.anything = true → r.verb = .shouldNot)
     (larch : LArch) (hres : resolves mt g.nodes larch ls = true) :
     (ruleLayerMap mt g larch r).consistent = true := by
-  obtain ⟨_, _, _, c, _⟩ := Pta.layer_reduce mt a g hg hwf ls r hdom hany larch hres
+  obtain ⟨_, _, c, _⟩ := Pta.layer_reduce mt a g hg hwf ls r hany larch hres
+    (Pta.ldom_of_layerDomain' mt g.nodes a hwf ls r hdom larch hres)
   exact c.cons
 
 /-- what the check says: it fails exactly when some identifier is listed by two entries with different layer names
@@ -193,7 +270,8 @@ def exR : LRuleSpec := { verb := .shouldOnly, importDir := true, exc := false, s
 def exR' : LRuleSpec := { verb := .shouldNot, importDir := false, exc := false, subject := "mid".toList, objects := ["top".toList] }
 def exRany : LRuleSpec := { verb := .shouldNot, importDir := true, exc := false, subject := "mid".toList, objects := [], anything := true }
 example : exA.wf = true ∧ layerDomain exA exLs exR = true ∧ layerDomain exA exLs exR' = true ∧
-    layerDomain exA exLs exRany = true := by decide
+    layerDomain exA exLs exRany = true ∧ layerDomain' exA exLs exR = true ∧ layerDomain' exA exLs exR' = true ∧
+    layerDomain' exA exLs exRany = true := by decide
 set_option maxRecDepth 8000 in
 example : (assertAppliesLayer (fun _ _ => false) (compileLayerRule (compileLArch exLs) exR) (archGraph exA)).cls = .pass ∧
     layerVerdict exA exLs exR = true := by decide
@@ -208,10 +286,10 @@ example : GraphOf exA (archGraph exA) := Pta.archGraph_graphOf exA (by decide)
 example : (exR.anything = true → exR.verb = .shouldNot) ∧ (exRany.anything = true → exRany.verb = .shouldNot) := by decide
 /-- hypotheses of `unmentioned_layers_irrelevant`: dropping the layer the rule does not mention -/
 def exLs2 : Layers := [("top".toList, [nm "p.a"]), ("mid".toList, [nm "p.b", nm "q"])]
-example : layerDomain exA exLs2 exR = true ∧ exLs.get exR.subject = exLs2.get exR.subject ∧
-    (∀ on ∈ exR.objects, exLs.get on = exLs2.get on) := by decide
+example : layerDomain' exA exLs2 exR = true ∧ exLs.get exR.subject = exLs2.get exR.subject ∧
+    (exR.anything = false → ∀ on ∈ exR.objects, exLs.get on = exLs2.get on) := by decide
 /-- hypotheses of `layerOf_correct` -/
-example : pairwiseUnrelated (exLs.flatMap (·.2)) = true ∧ (∀ l ∈ exLs, ∀ x ∈ l.2, nameWF x = true) ∧
+example : crossUnrelated exLs = true ∧ (∀ l ∈ exLs, ∀ x ∈ l.2, nameWF x = true) ∧
     nameWF (nm "p.a.x") = true ∧ layerTag exLs (nm "p.a.x") = some "top".toList ∧ layerTag exLs (nm "q.z") = some "mid".toList ∧
     layerTag exLs (nm "p") = none := by decide
 /-- hypotheses of `chain_state` -/
@@ -225,8 +303,8 @@ def exLarch : LArch :=
    ("low".toList, [.regex "p.c".toList])]
 def exLsR : Layers := [("top".toList, [nm "p.a.x", nm "p.a.y"]), ("mid".toList, [nm "p.b", nm "q"]), ("low".toList, [nm "p.c"])]
 set_option maxRecDepth 8000 in
-example : resolves exMt (archGraph exA).nodes exLarch exLsR = true ∧ layerDomain exA exLsR exR = true ∧
-    layerDomain exA exLsR exR' = true := by decide
+example : resolves exMt (archGraph exA).nodes exLarch exLsR = true ∧ layerDomain' exA exLsR exR = true ∧
+    layerDomain' exA exLsR exR' = true := by decide
 set_option maxRecDepth 8000 in
 example : (assertAppliesLayer exMt (compileLayerRule exLarch exR) (archGraph exA)).cls = .pass ∧
     layerVerdict exA exLsR exR = true := by decide
@@ -235,6 +313,131 @@ example : (assertAppliesLayer exMt (compileLayerRule exLarch exR') (archGraph ex
     layerVerdict exA exLsR exR' = false := by decide
 set_option maxRecDepth 8000 in
 example : (runLayerRuleOps exMt (layerRuleOps exLarch exR true) (archGraph exA)).1.cls = .pass := by decide
+
+/-! ### the relaxed domain (audit finding F6): related modules inside one layer
+
+    (a) a regex layer matching a package and its sub modules (`p.a`, `p.a.x`, `p.a.y`), (b) a name layer listing a module,
+    one of its sub modules and the module again, (c) an object layer named twice; all hypotheses of `layer_verdict`
+    hold, the old `layerDomain` does not, and both sides evaluate to the same verdict -/
+def exLarchW : LArch :=
+  [("top".toList, [.regex "p.a".toList]), ("mid".toList, [.name "p.b".toList, .name "q".toList]),
+   ("low".toList, [.regex "p.c".toList])]
+/-- the regex layers resolved: `top` lists a package and its two sub modules -/
+def exLsRW : Layers :=
+  [("top".toList, [nm "p.a", nm "p.a.x", nm "p.a.y"]), ("mid".toList, [nm "p.b", nm "q"]), ("low".toList, [nm "p.c"])]
+/-- name layers: `top` lists `p.a`, its sub module `p.a.x`, and `p.a` again -/
+def exLsW : Layers :=
+  [("top".toList, [nm "p.a", nm "p.a.x", nm "p.a"]), ("mid".toList, [nm "p.b", nm "q"]), ("low".toList, [nm "p.c"])]
+def exRtop : LRuleSpec := { verb := .shouldNot, importDir := true, exc := true, subject := "top".toList, objects := ["mid".toList] }
+def exRtopAny : LRuleSpec := { verb := .shouldNot, importDir := true, exc := false, subject := "top".toList, objects := [], anything := true }
+def exRtwice : LRuleSpec := { verb := .should, importDir := false, exc := false, subject := "mid".toList, objects := ["top".toList, "low".toList, "top".toList] }
+set_option maxRecDepth 8000 in
+example : resolves exMt (archGraph exA).nodes exLarchW exLsRW = true ∧
+    layerDomain' exA exLsRW exR = true ∧ layerDomain' exA exLsRW exR' = true ∧ layerDomain' exA exLsRW exRtop = true ∧
+    layerDomain' exA exLsRW exRtopAny = true ∧ layerDomain' exA exLsRW exRtwice = true ∧
+    layerDomain exA exLsRW exR = false ∧ layerDomain exA exLsRW exRtwice = false := by decide
+example : layerDomain' exA exLsW exR = true ∧ layerDomain' exA exLsW exR' = true ∧ layerDomain' exA exLsW exRtop = true ∧
+    layerDomain' exA exLsW exRtopAny = true ∧ layerDomain' exA exLsW exRtwice = true ∧
+    layerDomain exA exLsW exR = false ∧ layerDomain exA exLsW exRtopAny = false := by decide
+example : (exRtop.anything = true → exRtop.verb = .shouldNot) ∧ (exRtopAny.anything = true → exRtopAny.verb = .shouldNot) ∧
+    (exRtwice.anything = true → exRtwice.verb = .shouldNot) := by decide
+/- (a) regex layer matching a package and its sub modules -/
+set_option maxRecDepth 8000 in
+example : (assertAppliesLayer exMt (compileLayerRule exLarchW exR) (archGraph exA)).cls = .pass ∧
+    layerVerdict exA exLsRW exR = true := by decide
+set_option maxRecDepth 8000 in
+example : (assertAppliesLayer exMt (compileLayerRule exLarchW exR') (archGraph exA)).cls = .fail ∧
+    layerVerdict exA exLsRW exR' = false := by decide
+set_option maxRecDepth 8000 in
+example : (assertAppliesLayer exMt (compileLayerRule exLarchW exRtop) (archGraph exA)).cls = .pass ∧
+    layerVerdict exA exLsRW exRtop = true := by decide
+set_option maxRecDepth 8000 in
+example : (assertAppliesLayer exMt (compileLayerRule exLarchW exRtopAny) (archGraph exA)).cls = .fail ∧
+    layerVerdict exA exLsRW exRtopAny = false := by decide
+set_option maxRecDepth 8000 in
+example : (assertAppliesLayer exMt (compileLayerRule exLarchW exRtwice) (archGraph exA)).cls = .fail ∧
+    layerVerdict exA exLsRW exRtwice = false := by decide
+/- (b) name layer listing a module, its sub module, and the module again; with the `any layer` alias the sub module is
+    dropped from the rule's subjects by `_convert_aliases` and still belongs to the layer -/
+set_option maxRecDepth 8000 in
+example : (assertAppliesLayer (fun _ _ => false) (compileLayerRule (compileLArch exLsW) exR) (archGraph exA)).cls = .pass ∧
+    layerVerdict exA exLsW exR = true := by decide
+set_option maxRecDepth 8000 in
+example : (assertAppliesLayer (fun _ _ => false) (compileLayerRule (compileLArch exLsW) exR') (archGraph exA)).cls = .fail ∧
+    layerVerdict exA exLsW exR' = false := by decide
+set_option maxRecDepth 8000 in
+example : (assertAppliesLayer (fun _ _ => false) (compileLayerRule (compileLArch exLsW) exRtop) (archGraph exA)).cls = .pass ∧
+    layerVerdict exA exLsW exRtop = true := by decide
+set_option maxRecDepth 8000 in
+example : (assertAppliesLayer (fun _ _ => false) (compileLayerRule (compileLArch exLsW) exRtopAny) (archGraph exA)).cls = .fail ∧
+    layerVerdict exA exLsW exRtopAny = false := by decide
+set_option maxRecDepth 8000 in
+example : (assertAppliesLayer (fun _ _ => false) (compileLayerRule (compileLArch exLsW) exRtwice) (archGraph exA)).cls = .fail ∧
+    layerVerdict exA exLsW exRtwice = false := by decide
+example : dedupSubjects ((compileLArch exLsW).getD "top".toList) = [.name "p.a".toList, .name "p.a".toList] := by decide
+/-- hypotheses of `layerOf_correct` on a mapping with related modules inside one layer -/
+example : crossUnrelated exLsW = true ∧ pairwiseUnrelated (exLsW.flatMap (·.2)) = false ∧
+    (∀ l ∈ exLsW, ∀ x ∈ l.2, nameWF x = true) ∧ layerTag exLsW (nm "p.a.x") = some "top".toList ∧
+    layerTag exLsW (nm "p.a.y") = some "top".toList ∧ layerTag exLsW (nm "p") = none := by decide
+
+/-! ### layers the rule does not mention
+
+    An unmentioned REGEX layer may be defined in any way: `X` matches `p.a.x`, a sub module of the listed module of `top`;
+    the resolved layers are outside `layerDomain'`, but the rule does not convert the pattern, the layer lists nothing
+    for this rule (`ruleLayers`), and `layer_verdict_kept` / `unmentioned_layers_irrelevant'` apply. An unmentioned NAME
+    layer may list a module that does not exist. -/
+def exLarchU : LArch :=
+  [("top".toList, [.name "p.a".toList]), ("mid".toList, [.name "p.b".toList, .name "q".toList]),
+   ("X".toList, [.regex "p.a.x".toList]), ("Y".toList, [.name "r.s".toList])]
+def exLsU : Layers :=
+  [("top".toList, [nm "p.a"]), ("mid".toList, [nm "p.b", nm "q"]), ("X".toList, [nm "p.a.x"]), ("Y".toList, [nm "r.s"])]
+set_option maxRecDepth 8000 in
+example : resolves exMt (archGraph exA).nodes exLarchU exLsU = true ∧ layerDomain' exA exLsU exR = false ∧
+    ruleLayers exLarchU exLsU exR =
+      [("top".toList, [nm "p.a"]), ("mid".toList, [nm "p.b", nm "q"]), ("X".toList, []), ("Y".toList, [nm "r.s"])] ∧
+    layerDomainK exA (ruleLayers exLarchU exLsU exR) exR = true ∧
+    layerDomainK exA (ruleLayers exLarchU exLsU exR') exR' = true := by decide
+/-- the second layering of `unmentioned_layers_irrelevant'`: the mentioned layers only -/
+example : resolves exMt (archGraph exA).nodes (compileLArch exLs2) exLs2 = true ∧
+    layerDomainK exA (ruleLayers (compileLArch exLs2) exLs2 exR) exR = true ∧
+    exLsU.get exR.subject = exLs2.get exR.subject ∧
+    (exR.anything = false → ∀ on ∈ exR.objects, exLsU.get on = exLs2.get on) := by decide
+set_option maxRecDepth 8000 in
+example : (assertAppliesLayer exMt (compileLayerRule exLarchU exR) (archGraph exA)).cls = .pass ∧
+    layerVerdict exA exLsU exR = true ∧
+    (assertAppliesLayer exMt (compileLayerRule (compileLArch exLs2) exR) (archGraph exA)).cls = .pass := by decide
+set_option maxRecDepth 8000 in
+example : (assertAppliesLayer exMt (compileLayerRule exLarchU exR') (archGraph exA)).cls = .fail ∧
+    layerVerdict exA exLsU exR' = false := by decide
+
+/-- why unrelatedness is still required of unmentioned NAME layers: `X` lists `p.a.x`, a sub module of the listed module
+    `p.a` of `top`; the rule "top should not access mid" does not mention `X`, the specification (which treats the
+    modules of `X` as modules of no layer, i.e. `p.a.x` as a module of `top`) says fail, but looking up the layer of
+    `p.a.x.z` (below `p.a` of `top` and below `p.a.x` of `X`) raises `LayerMismatch`. The same happens when two layers
+    that the rule does not mention list related modules (`X`: `p.c`, `Y`: `p.c.z`) and a module below both is looked up. -/
+def exB : Arch :=
+  { nodes := ["p", "p.a", "p.a.x", "p.a.x.z", "p.a.y", "p.b", "p.c", "p.c.z", "p.c.z.w"].map nm,
+    imports := [(nm "p.a.x.z", nm "p.b"), (nm "p.a.y", nm "p.c.z.w")] }
+def exLsB0 : Layers := [("top".toList, [nm "p.a"]), ("mid".toList, [nm "p.b"])]
+def exLsB1 : Layers := [("top".toList, [nm "p.a"]), ("mid".toList, [nm "p.b"]), ("X".toList, [nm "p.a.x"])]
+def exLsB2 : Layers := [("top".toList, [nm "p.a"]), ("mid".toList, [nm "p.b"]), ("X".toList, [nm "p.c"]), ("Y".toList, [nm "p.c.z"])]
+def exRB : LRuleSpec := { verb := .shouldNot, importDir := true, exc := false, subject := "top".toList, objects := ["mid".toList] }
+def exRB' : LRuleSpec := { verb := .shouldNot, importDir := true, exc := true, subject := "top".toList, objects := ["mid".toList] }
+set_option maxRecDepth 8000 in
+theorem unmentioned_related_layer_mismatch :
+    exB.wf = true ∧ layerDomain' exB exLsB0 exRB = true ∧
+    exLsB1.get exRB.subject = exLsB0.get exRB.subject ∧ (∀ on ∈ exRB.objects, exLsB1.get on = exLsB0.get on) ∧
+    exLsB2.get exRB.subject = exLsB0.get exRB.subject ∧ (∀ on ∈ exRB.objects, exLsB2.get on = exLsB0.get on) ∧
+    layerVerdict exB exLsB0 exRB = false ∧ layerVerdict exB exLsB1 exRB = false ∧
+    layerVerdict exB exLsB0 exRB' = false ∧ layerVerdict exB exLsB2 exRB' = false ∧
+    (assertAppliesLayer (fun _ _ => false) (compileLayerRule (compileLArch exLsB0) exRB) (archGraph exB)).cls = .fail ∧
+    (assertAppliesLayer (fun _ _ => false) (compileLayerRule (compileLArch exLsB1) exRB) (archGraph exB)).cls =
+      .err .layerMismatch ∧
+    (assertAppliesLayer (fun _ _ => false) (compileLayerRule (compileLArch exLsB0) exRB') (archGraph exB)).cls = .fail ∧
+    (assertAppliesLayer (fun _ _ => false) (compileLayerRule (compileLArch exLsB2) exRB') (archGraph exB)).cls =
+      .err .layerMismatch ∧
+    layerDomainK exB (ruleLayers (compileLArch exLsB1) exLsB1 exRB) exRB = false ∧
+    layerDomainK exB (ruleLayers (compileLArch exLsB2) exLsB2 exRB') exRB' = false := by decide
 
 /-! non-vacuity of `overlapping_layers_*`: module `x` is listed in layer A and matched by the regex of layer B (the
     builder accepts this definition); "A should not access B" -/
